@@ -324,7 +324,7 @@ theorem C12_pin_providerUses :
   rfl
 
 /-- A use is a short history of provider calls. -/
-theorem useStep_state (P : Params) (s : State) (u : Use) :
+theorem C12_use_step_is_calls (P : Params) (s : State) (u : Use) :
     (useStep P s u).1 = exec P s (u.toOps s) := by
   cases u with
   | ke t1 t2 => rfl
@@ -334,19 +334,19 @@ theorem useStep_state (P : Params) (s : State) (u : Use) :
     | none => simp [exec, step, hg]
     | some k => cases auth <;> simp [exec, step, hg]
 
-theorem useExec_flat (P : Params) (s : State) (us : List Use) :
+theorem C12_use_exec_is_calls (P : Params) (s : State) (us : List Use) :
     useExec P s us = exec P s (flat P s us) := by
   induction us generalizing s with
   | nil => rfl
   | cons u rest ih =>
-    simp only [useExec, flat, exec_append, ← useStep_state, ih]
+    simp only [useExec, flat, exec_append, ← C12_use_step_is_calls, ih]
 
 /-- use_reach: any history of uses whose provider calls have non-decreasing clock readings leaves
     the provider in a reachable state — so every theorem above applies between uses. -/
 theorem C12_use_reach {P t0 now s} (hr : Reach P t0 now s) (us : List Use)
     (ht : Timed now (flat P s us)) :
     Reach P t0 (endTime now (flat P s us)) (useExec P s us) := by
-  rw [useExec_flat]; exact reach_exec hr ht
+  rw [C12_use_exec_is_calls]; exact reach_exec hr ht
 
 /-- use_sealed_fresh: whatever one of the three users seals cookies with is the key `Current`
     returned at clock readings `c1 ≤ c2` of that same call / iteration: it has
@@ -409,7 +409,7 @@ theorem C12_use_served_only_if_opened (P : Params) (s : State) (id t c1 c2 : Int
   | some k0 => cases auth <;> simp [hg] at h
 
 /-- The `Current` call of a sealing use, as a call on a reachable state. -/
-private theorem sealed_is_current {P t0 now s} (hr : Reach P t0 now s) (u : Use)
+theorem C12_use_sealed_is_current {P t0 now s} (hr : Reach P t0 now s) (u : Use)
     (ht : Timed now (u.toOps s)) {k : Key} (hk : (useStep P s u).2.sealedWith = some k) :
     ∃ now' c1 c2, Reach P t0 now' s ∧ now' ≤ c1 ∧ c1 ≤ c2 ∧
       (useStep P s u).1 = (current P s c1 c2).1 ∧ k = (current P s c1 c2).2 ∧
@@ -449,10 +449,10 @@ theorem C12_use_cookie_window {P t0 now s} (hr : Reach P t0 now s) (u : Use)
     (auth : Bool) (c1 c2 : Int) :
     (useStep P (useExec P (useStep P s u).1 mid) (.ntp k.id t auth c1 c2)).2.opened =
       if t ≤ k.na then some k else none := by
-  obtain ⟨now', a, b, hr', h1, h2, hs, hkk, hend⟩ := sealed_is_current hr u ht hk
+  obtain ⟨now', a, b, hr', h1, h2, hs, hkk, hend⟩ := C12_use_sealed_is_current hr u ht hk
   rw [hend] at hm he
   rw [hs] at hm he ⊢
-  rw [useExec_flat]
+  rw [C12_use_exec_is_calls]
   have hw := C12_cookie_window hr' h1 h2 _ hm he
   simp only at hw
   rw [← hkk] at hw
